@@ -6,7 +6,7 @@
    back as the same record, vouchers equal as DAG-CBOR data. *)
 From Coq Require Import List NArith ZArith String Bool.
 From DT Require Import GenStatus GenEvent FsmTypes GenFsm Fsm Machine FsmFacts MachineFacts C17Proofs C09Proofs C06Proofs.
-From DT Require Cbor StateCodec StateCodecProofs.
+From DT Require Cbor StateCodec StateCodecProofs StateIdem.
 Import ListNotations.
 
 (* at every write boundary n of every schedule, the record on disk is the record obtained by
@@ -61,3 +61,12 @@ Theorem C06_record_refused_iff :
   forall s, StateCodec.st_encode s = None <-> StateCodec.encodable s = false.
 Proof. exact StateCodecProofs.record_refused_iff. Qed.
 Print Assumptions C06_record_refused_iff.
+
+(* what was read back is stored and read again unchanged: any number of restarts later the record
+   is still the one first read (the canonical form is a fixed point) *)
+Theorem C06_record_stable_after_first_read :
+  forall s, StateCodec.encodable s = true -> StateCodec.wf_state s ->
+    exists b, StateCodec.st_encode (StateCodec.canon_state s) = Some b /\
+              StateCodec.st_decode b = Some (StateCodec.canon_state s).
+Proof. exact StateIdem.record_stable_after_first_read. Qed.
+Print Assumptions C06_record_stable_after_first_read.
